@@ -355,12 +355,22 @@ impl Engine {
             best_mv = best_mv_at;
             best_score = score;
             self.max_depth = depth;
-            depth += 1;
+
+            // a completed pass without a move means there is no legal move: deeper passes
+            // cannot find one either
+            if best_mv.is_none() {
+                break;
+            }
 
             match score {
                 Score::BlackMateIn(_) | Score::WhiteMateIn(_) => break,
                 _ => (),
             }
+
+            let Some(next_depth) = depth.checked_add(1) else {
+                break;
+            };
+            depth = next_depth;
         }
 
         (best_mv, best_score)
